@@ -217,6 +217,10 @@ fn bodies(rng: &mut Rng, sw: &Swarm) -> Vec<Vec<u8>> {
         z[2..4].copy_from_slice(&l.to_be_bytes());
         out.push(z[2..].to_vec());
     }
+    // traffic shaped like the real protocol: an opening SCCRQ (tunnel and
+    // session id 0, Protocol Version AVP) and one message of any other kind
+    out.push(spec_encode(&gen_realistic_of(rng, Some(1)))[2..].to_vec());
+    out.push(spec_encode(&gen_realistic(rng))[2..].to_vec());
     let bk = *rng.pick(&NONTERMINAL);
     let bad = bad_record(rng, sw, bk).bytes;
     let mt = msgtype_record(rng);
@@ -337,7 +341,7 @@ impl Scenario for C14 {
     }
     fn meta() -> Meta {
         Meta {
-            rule: "fault site = the 16-bit flag word. Each run builds 16 bodies (valid control with AVPs, ZLB, both also with 1-5 ignored octets inside Length, control holding a bad AVP, truncated control, valid data bodies for all 8 L/S/O layouts, empty, garbage) and puts flag words in front of them: quick tier = all words at Hamming distance <= 2 from 0x1320, 0x0020, 0x5320, 0xD220 (sliced over the runs) plus PRNG words; thorough tier = all 65 536 words (8 per run over 8192 runs), each in front of every body kind. Every delivery goes to the 8 option sets and to try_read; cross-node invariants: try_read = version-only; for every ordered pair opts <= opts', Ok(m) under opts' implies Ok(m) under opts; each gate rejects exactly its strings (nibble != 2; reserved bits {0,1,2,3,10,11,13}; control P/O) and is otherwise transparent (full result equality, error lists included); with all checks off, normalising the owned bits leaves the result unchanged (data-message P/O excluded). distinct_nontrivial = distinct (flag word, body) pairs.",
+            rule: "fault site = the 16-bit flag word. Each run builds 18 bodies (a realistic opening SCCRQ and one realistic message of another kind, valid control with AVPs, ZLB, both also with 1-5 ignored octets inside Length, control holding a bad AVP, truncated control, valid data bodies for all 8 L/S/O layouts, empty, garbage) and puts flag words in front of them: quick tier = all words at Hamming distance <= 2 from 0x1320, 0x0020, 0x5320, 0xD220 (sliced over the runs) plus PRNG words; thorough tier = all 65 536 words (8 per run over 8192 runs), each in front of every body kind. Every delivery goes to the 8 option sets and to try_read; cross-node invariants: try_read = version-only; for every ordered pair opts <= opts', Ok(m) under opts' implies Ok(m) under opts; each gate rejects exactly its strings (nibble != 2; reserved bits {0,1,2,3,10,11,13}; control P/O) and is otherwise transparent (full result equality, error lists included); with all checks off, normalising the owned bits leaves the result unchanged (data-message P/O excluded). distinct_nontrivial = distinct (flag word, body) pairs.",
             assumptions: vec!["when the version nibble is wrong and a reserved bit is set only rejection is required (which gate fires first is not specified)"],
             real: vec!["Message::try_read", "Message::try_read_validate", "Flags", "ControlMessage::try_read unused-field checks"],
             stub: vec!["eight receiver configurations as eight nodes fed the identical delivery", "reference sender for the bodies"],
